@@ -588,7 +588,13 @@ class GeoInterp:
         if isinstance(e.func, ast.Attribute) and e.func.attr in ('front',) and not e.args:
             v = ev(e.func.value)
             if v[0] == 'T':
-                fn = self.index.func('gym_gridverse/agent.py', 'Agent.front')
+                # a pose class of its own (Transform or a subclass the agent builds) may define
+                # the faced cell itself; otherwise the agent, read as its pose, does
+                own = [c_.methods['front'] for c_ in
+                       [self.gmod.classes.get('Transform')] + self.index.subclasses('Transform')
+                       if c_ is not None and 'front' in c_.methods]
+                fn = own[0] if len(own) == 1 else \
+                    self.index.func('gym_gridverse/agent.py', 'Agent.front')
                 return self._call(fn, {fn.node.args.args[0].arg: v})
         if isinstance(e.func, ast.Name) and e.func.id in module.functions and depth > 0:
             fn = module.functions[e.func.id]
